@@ -238,7 +238,7 @@ class Recorder:
 
 
 def write_replay(pid, check, case, msg, sig, detail=None):
-    d = os.path.join(VERIF_ROOT, "replays", pid)
+    d = os.path.join(os.environ.get("VERIF_REPLAY_DIR") or os.path.join(VERIF_ROOT, "replays"), pid)
     os.makedirs(d, exist_ok=True)
     body = {"property": pid, "check": check, "case": jsonable(case), "message": msg, "sig": jsonable(sig)}
     if detail is not None:
@@ -273,7 +273,7 @@ def write_evidence(rec, level, rule, wall_s, assumptions, extra_cov=None):
         "wall_s": round(float(wall_s), 3),
         "violations": len(rec.violations),
     }
-    d = os.path.join(VERIF_ROOT, "evidence")
+    d = os.environ.get("VERIF_EVIDENCE_DIR") or os.path.join(VERIF_ROOT, "evidence")
     os.makedirs(d, exist_ok=True)
     p = os.path.join(d, f"{rec.pid}.json")
     tmp = p + ".tmp"
